@@ -190,9 +190,43 @@ theorem inv_setKey (s : St) (op key : Nat) (h : Inv s) : Inv (setKey s op key).2
   · exact h
   · exact inv_setKeyCore s op key h
 
-/-- opt-out is harmless when the current key is in the validator set (the guard) -/
-theorem inv_optOut (s : St) (op : Nat) (h : Inv s)
-    (hg : ∀ k, s.fwd op = some k → has s.vs.vals k = true) : Inv (optOut s op).2 := by
+theorem inv_completeRemoval (s : St) (op : Nat) (h : Inv s) : Inv (completeRemoval s op) := by
+  unfold completeRemoval
+  split
+  · exact h
+  · split
+    · exact h
+    · cases hf : s.fwd op with
+      | none => exact h
+      | some key =>
+        simp only []
+        refine ⟨?_, ?_, ?_, ?_, h.disj⟩
+        · intro o; simp only [upd_apply]; split
+          · rfl
+          · exact h.fwdEq o
+        · intro o k hk
+          simp only [upd_apply] at hk ⊢
+          split at hk
+          · cases hk
+          · rename_i ho
+            have hne : k ≠ key := fun e => ho (h.injective o op key (e ▸ hk) hf)
+            simp only [hne, if_false]; exact h.back o k hk
+        · intro k hk o
+          simp only [upd_apply]
+          split
+          · intro e; cases e
+          · exact h.schedFree k hk o
+        · intro k hk
+          have hne : k ≠ key := fun e => h.schedFree k hk op (e ▸ hf)
+          simp only [upd_apply, hne, if_false]; exact h.schedRev k hk
+
+theorem inv_foldl_completeRemoval (l : List Nat) (s : St) (h : Inv s) : Inv (l.foldl completeRemoval s) := by
+  induction l generalizing s with
+  | nil => exact h
+  | cons a rest ih => exact ih _ (inv_completeRemoval s a h)
+
+/-- opt-out keeps the invariant in both branches (scheduled / completed at once) -/
+theorem inv_optOut (s : St) (op : Nat) (h : Inv s) : Inv (optOut s op).2 := by
   unfold optOut
   split
   · exact h
@@ -201,8 +235,20 @@ theorem inv_optOut (s : St) (op : Nat) (h : Inv s)
     · cases hf : s.fwd op with
       | none => exact h
       | some key =>
-        simp only [hg key hf, if_true]
-        exact h.congr rfl rfl rfl rfl rfl
+        simp only []
+        repeat' split
+        all_goals first
+          | exact h.congr rfl rfl rfl rfl rfl
+          | exact inv_completeRemoval _ op (h.congr rfl rfl rfl rfl rfl)
+
+/-- completeRemoval touches neither the queues nor the pending lists -/
+theorem completeRemoval_fields (t : St) (op : Nat) :
+    (completeRemoval t op).addrsToPrune = t.addrsToPrune ∧ (completeRemoval t op).pendingAddrs = t.pendingAddrs ∧
+    (completeRemoval t op).undelToMature = t.undelToMature ∧ (completeRemoval t op).optOutsToFinish = t.optOutsToFinish ∧
+    (completeRemoval t op).pendingUndel = t.pendingUndel ∧ (completeRemoval t op).undelMaturity = t.undelMaturity := by
+  unfold completeRemoval
+  repeat' split
+  all_goals exact ⟨rfl, rfl, rfl, rfl, rfl, rfl⟩
 
 theorem inv_setJailed (s : St) (key : Nat) (b : Bool) (h : Inv s) : Inv (setJailed s key b) := by
   unfold setJailed
@@ -246,41 +292,6 @@ theorem inv_epochEndHook (s : St) (e : Int) (h : Inv s) : Inv (epochEndHook s e)
       split
       · simp
       · exact hd.2 e'' hne2
-
-theorem inv_completeRemoval (s : St) (op : Nat) (h : Inv s) : Inv (completeRemoval s op) := by
-  unfold completeRemoval
-  split
-  · exact h
-  · split
-    · exact h
-    · cases hf : s.fwd op with
-      | none => exact h
-      | some key =>
-        simp only []
-        refine ⟨?_, ?_, ?_, ?_, h.disj⟩
-        · intro o; simp only [upd_apply]; split
-          · rfl
-          · exact h.fwdEq o
-        · intro o k hk
-          simp only [upd_apply] at hk ⊢
-          split at hk
-          · cases hk
-          · rename_i ho
-            have hne : k ≠ key := fun e => ho (h.injective o op key (e ▸ hk) hf)
-            simp only [hne, if_false]; exact h.back o k hk
-        · intro k hk o
-          simp only [upd_apply]
-          split
-          · intro e; cases e
-          · exact h.schedFree k hk o
-        · intro k hk
-          have hne : k ≠ key := fun e => h.schedFree k hk op (e ▸ hf)
-          simp only [upd_apply, hne, if_false]; exact h.schedRev k hk
-
-theorem inv_foldl_completeRemoval (l : List Nat) (s : St) (h : Inv s) : Inv (l.foldl completeRemoval s) := by
-  induction l generalizing s with
-  | nil => exact h
-  | cons a rest ih => exact ih _ (inv_completeRemoval s a h)
 
 theorem releaseUndel_fields (l : List Nat) (s : St) :
     (l.foldl releaseUndel s).fwd = s.fwd ∧ (l.foldl releaseUndel s).fwd2 = s.fwd2 ∧
